@@ -32,3 +32,29 @@ Definition spec_ok_next (f : sfile) (observed : option Z) : bool :=
   | None, None => true
   | _, _ => false
   end.
+
+(* ---- what a resumed invocation executes (theorems in ResumeExec.v) --------------------------------- *)
+
+(* the skeleton of a configuration: (id, name) of its steps, in order *)
+Definition skel := list (Z * bytes).
+Definition skel_of (steps : list cstep) : skel := map fst steps.
+
+(* step j completed successfully: it has a record that is not a skip record, with exit 0, and it is not
+   the end step *)
+Definition completedb (f : sfile) (j : Z) : bool :=
+  existsb (fun r => (r_id r =? j) && nonskip r && (r_exit r =? 0) && negb (beq (r_name r) END)) f.
+
+(* oracle on an observed resumed run: resume point [x], ids of the steps whose commands were started, in
+   order, against the file [f] the crash left and the skeleton [k]: nothing below x runs; no step that
+   completed successfully runs again; every configured step before the first one that runs is marked
+   skipped or completed successfully; when x is the record of a failed or interrupted step (not end),
+   that step runs first *)
+Definition spec_ok_resumed (k : skel) (f : sfile) (x : Z) (ex : list Z) : bool :=
+  forallb (fun i => x <=? i) ex &&
+  forallb (fun i => negb (completedb f i)) ex &&
+  (match ex with
+   | [] => true
+   | i :: _ => forallb (fun s => negb (fst s <? i) || skipped f (snd s) || completedb f (fst s)) k
+   end) &&
+  (if existsb (fun r => (r_id r =? x) && nonskip r && negb (beq (r_name r) END)) f
+   then match ex with [] => true | i :: _ => i =? x end else true).
